@@ -78,7 +78,12 @@ func vrtCmdInvImage(h *wt.Header, tag string, now wt.Timestamp) ([]byte, *vrtSlo
 		s := int64(a.SecondsPerPoint())
 		ts := make([]wt.Timestamp, n)
 		vs := make([]wt.Value, n)
-		written := vrt.Choose(vrt.N(tag+"written", ai), 2) == 1
+		// quick tier: every archive has been written at least once; the thorough tier also covers
+		// never-written archives (and the absent-destination path creates a never-written file)
+		written := true
+		if vrt.Tier() == 1 {
+			written = vrt.Choose(vrt.N(tag+"written", ai), 2) == 1
+		}
 		var b int64
 		if written {
 			kb := vrt.U32(vrt.N(tag+"kB", ai))
